@@ -550,9 +550,14 @@ func (s *ObjectStorage) HasEncodedObject(h plumbing.Hash) (err error) {
 	// tolerance of partial pack-store corruption.
 	idxErr := s.requireIndex()
 	if idxErr == nil {
-		if _, _, offset := s.findObjectInPackfile(h); offset != -1 {
+		_, _, offset, searchErr := s.findObjectInPackfile(h)
+		if offset != -1 {
 			return nil
 		}
+		// An index that could not be searched counts like one that could
+		// not be loaded: a loose copy may still answer, absence may not be
+		// concluded.
+		idxErr = searchErr
 	}
 
 	// Existence-only on the loose path: Stat instead of Open
@@ -617,7 +622,9 @@ func (s *ObjectStorage) EncodedObjectSize(h plumbing.Hash) (size int64, err erro
 	// degrades gracefully — same shape as HasEncodedObject.
 	idxErr := s.requireIndex()
 	if idxErr == nil {
-		if pack, idx, offset := s.findObjectInPackfile(h); !pack.IsZero() {
+		pack, idx, offset, searchErr := s.findObjectInPackfile(h)
+		idxErr = searchErr
+		if !pack.IsZero() {
 			if cached, ok := s.objectCache.Get(h); ok {
 				return cached.Size(), nil
 			}
@@ -670,7 +677,9 @@ func (s *ObjectStorage) EncodedObject(t plumbing.ObjectType, h plumbing.Hash) (p
 	idxErr := s.requireIndex()
 	routed := false
 	if idxErr == nil {
-		if pack, idx, offset := s.findObjectInPackfile(h); !pack.IsZero() {
+		pack, idx, offset, searchErr := s.findObjectInPackfile(h)
+		idxErr = searchErr
+		if !pack.IsZero() {
 			routed = true
 			if cached, ok := s.objectCache.Get(h); ok {
 				if t == plumbing.AnyObject || cached.Type() == t {
@@ -784,8 +793,11 @@ func (s *ObjectStorage) getFromPackfile(h plumbing.Hash, canBeDelta bool) (plumb
 		return nil, err
 	}
 
-	pack, idx, offset := s.findObjectInPackfile(h)
+	pack, idx, offset, err := s.findObjectInPackfile(h)
 	if offset == -1 {
+		if err != nil {
+			return nil, err
+		}
 		return nil, plumbing.ErrObjectNotFound
 	}
 	return s.getFromPackfileAt(pack, idx, h, offset, canBeDelta)
@@ -875,15 +887,21 @@ func (s *ObjectStorage) decodeDeltaObjectAt(
 // extra MayContain + FindOffset probe and never misroutes, since
 // FindOffset's contract returns an offset only for the hash it
 // was asked about.
-func (s *ObjectStorage) findObjectInPackfile(h plumbing.Hash) (plumbing.Hash, idxfile.Index, int64) {
+//
+// The error is non-nil only when the object was found in no pack and at least
+// one index could not be searched (an I/O error reading a lazily loaded idx):
+// the caller must not take that for "the object is in no pack".
+func (s *ObjectStorage) findObjectInPackfile(h plumbing.Hash) (plumbing.Hash, idxfile.Index, int64, error) {
 	simhook.BeforeRLock(&s.muI)
 	s.muI.RLock()
 	packs := s.packs
 	s.muI.RUnlock()
 
 	if len(packs) == 0 {
-		return plumbing.ZeroHash, nil, -1
+		return plumbing.ZeroHash, nil, -1, nil
 	}
+
+	var searchErr error
 
 	// MRU: probe the last successfully-hit pack first. The hint is
 	// encoded as packs index + 1; 0 means no hint. A stale entry
@@ -892,8 +910,12 @@ func (s *ObjectStorage) findObjectInPackfile(h plumbing.Hash) (plumbing.Hash, id
 	if hint >= 0 && hint < len(packs) {
 		pe := packs[hint]
 		if pe.idx != nil && pe.idx.MayContain(h) {
-			if offset, err := pe.idx.FindOffset(h); err == nil {
-				return pe.h, pe.idx, offset
+			offset, err := pe.idx.FindOffset(h)
+			if err == nil {
+				return pe.h, pe.idx, offset, nil
+			}
+			if !errors.Is(err, plumbing.ErrObjectNotFound) {
+				searchErr = err
 			}
 		}
 	} else {
@@ -918,11 +940,14 @@ func (s *ObjectStorage) findObjectInPackfile(h plumbing.Hash) (plumbing.Hash, id
 			if s.lastHitPackIdx.Load() != next {
 				s.lastHitPackIdx.Store(next)
 			}
-			return pe.h, pe.idx, offset
+			return pe.h, pe.idx, offset, nil
+		}
+		if !errors.Is(err, plumbing.ErrObjectNotFound) && searchErr == nil {
+			searchErr = err
 		}
 	}
 
-	return plumbing.ZeroHash, nil, -1
+	return plumbing.ZeroHash, nil, -1, searchErr
 }
 
 // HashesWithPrefix returns all objects with a hash that starts with a prefix by searching for
